@@ -267,6 +267,27 @@ def esig(b):
     return out
 
 
+def check_flag_merge(chk, rep, tables, unames):
+    """MetricFlags::try_merge on every pair of flag sets, against the spec's FlagMerge"""
+    if not tables:
+        raise vlib.ToolError("VPValueStacks printed no FLAGMERGE table")
+    rows = tables[0]
+    for i, row in enumerate(rows):
+        row["id"] = i
+    outs = run_harness(chk, "flagmerge", rows, "flagmerge")
+    for row in rows:
+        o = outs[row["id"]]
+        d = Diff()
+        if "panic" in o:
+            d.add("C15", "panic", f"try_merge panicked: {o['panic']}")
+        elif sorted(o["r"]) != sorted(row["r"]):
+            d.add("C15", "flags", f"flags {sorted(row['x'])} merged with {sorted(row['y'])} gave {sorted(o['r'])}, expected {sorted(row['r'])}")
+        chk.evaluations += 1
+        if not rep.report(d, "MetricFlags::try_merge", f"{sorted(row['x'])}+{sorted(row['y'])}", {"kind": "flagmerge", "behaviour": row, "observed": o, "units": unames}):
+            chk.traces += 1
+    chk.extra["flag_merge_pairs"] = len(rows)
+
+
 def check_value_stacks(chk, rep, tier, only_units=False):
     cfg = "MC_vstacks_quick.cfg" if tier == "quick" else "MC_vstacks.cfg"
     r, beh, unames = tlc_behaviours(chk, "VPValueStacks", cfg)
@@ -276,6 +297,8 @@ def check_value_stacks(chk, rep, tier, only_units=False):
     for b in beh:
         b["runs"] = runs
     outs = run_harness(chk, "values", beh, "values")
+    if not only_units:
+        check_flag_merge(chk, rep, vlib.replay_lines(r, tag="FLAGMERGE"), unames)
     plain = {b["base"]: outs[b["id"]]["runs"] for b in beh if not b["stack"]}
     feat = collections.Counter()
     for b in beh:
@@ -305,6 +328,8 @@ def check_value_stacks(chk, rep, tier, only_units=False):
             feat["flags_merged_with_existing"] += 1
         if ws.count("Dim") >= 2:
             feat["two_dimension_layers"] += 1
+        if any(w["w"] == "Flag" and w["f"] == "0" for w in b["stack"]) and b["expect"]["kind"] == "metric" and b["expect"]["flags"]:
+            feat["empty_flag_constructor_over_or_under_flags"] += 1
         if ws.count("Flag") >= 2:
             feat["two_flag_layers"] += 1
         if b["expect"]["kind"] == "error" and b["expect"]["err"] != "base":
@@ -646,7 +671,7 @@ def replay(prop, path):
                     cmp_call(d, it["name"], byfield[it["name"]]["expect"], it["calls"], o["mags"][it["name"]], unames, True)
     else:
         b = rp["behaviour"]
-        cmd = {"value": "values", "entry": "entries", "pair": "pairs", "collect": "collect", "hist": "hist"}[rp["kind"]]
+        cmd = {"value": "values", "entry": "entries", "pair": "pairs", "collect": "collect", "hist": "hist", "flagmerge": "flagmerge"}[rp["kind"]]
         # the unwrapped value / entry with the same magnitudes, for the differential part
         b0 = dict(b, id=b["id"] + 1, stack=[]) if rp["kind"] in ("value", "entry") else None
         outs = run_harness(chk, cmd, [b] + ([b0] if b0 else []), "replay")
@@ -668,6 +693,9 @@ def replay(prop, path):
                     cmp_entry(d, b, ro, unames, plain=pl[k])
         elif rp["kind"] == "collect":
             cmp_collect(d, b, o, unames)
+        elif rp["kind"] == "flagmerge":
+            if "panic" in o or sorted(o.get("r", [])) != sorted(b["r"]):
+                d.add("C15", "flags", f"try_merge of {b['x']} and {b['y']} gave {o.get('r', o.get('panic'))}, expected {b['r']}")
         elif rp["kind"] == "hist":
             for ro in o["runs"]:
                 if "panic" in ro:
